@@ -352,8 +352,32 @@ func (c *EvalCtx) local(name string) (Value, bool) {
 			case *ssa.Alloc:
 				if x.Comment == name {
 					if v, ok := fr.Regs[x]; ok {
-						return c.ex.load(st, v, nil), true
+						return c.ex.specLoad(st, v), true
 					}
+				}
+			}
+		}
+	}
+	return nil, false
+}
+
+// localRaw finds a local by name without normalising it (allocs are dereferenced once).
+func (c *EvalCtx) localRaw(name string) (Value, bool) {
+	st := c.post
+	var fr *Frame
+	for _, f := range st.frames {
+		if f.Fn == c.fn {
+			fr = f
+		}
+	}
+	if fr == nil {
+		return nil, false
+	}
+	for _, b := range c.fn.Blocks {
+		for _, in := range b.Instrs {
+			if x, ok := in.(*ssa.Alloc); ok && x.Comment == name {
+				if v, ok := fr.Regs[x]; ok {
+					return c.ex.specLoad(st, v), true
 				}
 			}
 		}
@@ -371,7 +395,7 @@ func (c *EvalCtx) field(base Value, name string) Value {
 		}
 		return c.resolveMaybe(CComp{Prefix: p, Keys: x.Keys, Old: x.Old})
 	case VPtr:
-		v := c.ex.load(c.state(), x, nil)
+		v := c.ex.specLoad(c.state(), x)
 		return c.field(v, name)
 	case VStruct:
 		s := x.T.Underlying().(*types.Struct)
@@ -665,7 +689,7 @@ func (c *EvalCtx) eq(a, b Value) *Term {
 		}
 	case VPtr:
 		// pointer to struct: compare pointee
-		return c.eq(c.ex.load(c.state(), x, nil), b)
+		return c.eq(c.ex.specLoad(c.state(), x), b)
 	case VList:
 		if y, ok := b.(VList); ok {
 			conj := []*Term{Eq(x.Len, y.Len)}
@@ -1075,15 +1099,75 @@ func (c *EvalCtx) call(e *Expr) Value {
 		if e.Args[0].Op != "ident" {
 			fail("mem needs a parameter name")
 		}
-		sl, ok := c.vars[e.Args[0].Name].(VSlice)
-		if !ok || sl.Obj < 0 {
+		st := c.state()
+		var sl VSlice
+		if v, ok := c.vars[e.Args[0].Name].(VSlice); ok {
+			sl = v
+		} else if c.fn != nil {
+			// a local byte array / slice, named by its source variable (or "makeslice" for make([]byte, N))
+			lv, ok := c.localRaw(e.Args[0].Name)
+			if !ok {
+				fail("mem: unknown memory %s", e.Args[0].Name)
+			}
+			switch x := lv.(type) {
+			case VSlice:
+				sl = x
+			case VByteArr:
+				sl = VSlice{Obj: x.Obj, Off: BV(64, 0), Len: BV(64, int64(x.N)), Cap: BV(64, int64(x.N)), Nil: TFalse}
+			default:
+				fail("mem: %s is not byte memory", e.Args[0].Name)
+			}
+		} else {
 			fail("mem: %s is not a byte slice parameter", e.Args[0].Name)
 		}
-		st := c.state()
+		if sl.Obj < 0 {
+			fail("mem: %s has no backing memory", e.Args[0].Name)
+		}
 		if _, ok := st.heap[sl.Obj]; !ok {
 			st = c.post
 		}
 		return VBV{Select(st.heap[sl.Obj], BVAdd(sl.Off, c.asBV(c.eval(e.Args[1]), 64))), false}
+	case "leftPad32":
+		// b right-aligned in 32 bytes, zero-filled on the left (meaningful for len(b) <= 32)
+		argn(1)
+		b := c.bytesArg(e.Args[0])
+		pad := BVSub(BV(64, 32), Blen(b))
+		arr := ZeroArr
+		for i := 0; i < 32; i++ {
+			iv := BV(64, int64(i))
+			arr = storeNZ(arr, uint64(i), Ite(BVUlt(iv, pad), BV(8, 0), Select(Barr(b), BVSub(iv, pad))))
+		}
+		return VStr{MkBytes(arr, BV(64, 32))}
+	case "trimPrefix":
+		argn(2)
+		return VStr{App("trimPrefix", SBytes, c.bytesArg(e.Args[0]), c.bytesArg(e.Args[1]))}
+	case "base58dec":
+		argn(1)
+		return VStr{App("base58dec", SBytes, c.bytesArg(e.Args[0]))}
+	case "hasPrefix":
+		argn(2)
+		p := c.bytesArg(e.Args[1])
+		n, ok := Blen(p).U64()
+		if !ok {
+			fail("hasPrefix needs a constant prefix")
+		}
+		sT := c.bytesArg(e.Args[0])
+		conj := []*Term{BVUge(Blen(sT), BVU(64, n))}
+		for i := uint64(0); i < n; i++ {
+			conj = append(conj, Eq(Select(Barr(sT), BVU(64, i)), Select(Barr(p), BVU(64, i))))
+		}
+		return VBool{And(conj...)}
+	case "paginatedPrefix":
+		// the raw key prefix of the store handed to query.Paginate by this call ("" when none was made)
+		argn(0)
+		ps := c.post.pages
+		if len(ps) == 0 {
+			return VStr{EmptyBytes}
+		}
+		if len(ps) > 1 {
+			fail("more than one Paginate call")
+		}
+		return VStr{ps[0]}
 	case "hintRange":
 		// hintRange(base, n): hint(base), hint(base+1), ... hint(base+n-1)  (always true)
 		argn(2)
